@@ -511,6 +511,9 @@ ROUND_MODE = {"build_floor": "1", "build_ceil": "2"}
 MOVE_WIDTH = {"point": ({"vmovss", "movss"}, 16), "interval": ({"vmovq", "movq", "vmovsd"}, 16), "float_slice": ({"vmovups", "vmovaps"}, 32), "grad_slice": ({"vmovups", "vmovaps"}, 16)}
 
 
+_FP_ARITH = _re.compile(r"v?(add|sub|mul|div|sqrt|rcp|rsqrt|fmadd\w*|fmsub\w*|fnmadd\w*)(ss|ps|sd|pd)")
+
+
 def check_simple_builders(rule, kind, root=None):
     p = path_of(kind)
     builders = M.load_builders(p, root)
@@ -560,3 +563,56 @@ def check_simple_builders(rule, kind, root=None):
                 rule.bad(key + "|copy", "%s build_copy must copy %s into %s; found `%r`" % (kind, params[1], params[0], x), "%s:%d" % (p, x.ln))
             else:
                 rule.ok("%s %s = `%r`" % (kind, name, x), file=p, line=x.ln)
+        elif name in ("build_neg", "build_abs"):
+            # the interpreter's `-x` / `abs` flip or clear the sign bit and nothing else; arithmetic is not
+            # the same function (0 - x is +0.0 at x = +0.0, where -x is -0.0)
+            arith = [x for x in ins if x.mnem and _FP_ARITH.fullmatch(x.mnem)]
+            bitop = [x for x in ins if x.mnem and _re.fullmatch(r"v?p?(xor|and|andn)(ps|pd|d|q)?", x.mnem) and any(o.kind == "vec" for o in x.ops)]
+            if arith:
+                rule.bad(key + "|arith", "%s %s computes a sign operation with `%r`; the interpreter flips / clears the sign bit, which is a different function at signed zeros" % (kind, name, arith[0]), "%s:%d" % (p, arith[0].ln))
+            elif not bitop:
+                rule.bad(key + "|bitop", "%s %s contains no bitwise xor / and on a vector register" % (kind, name), "%s:%d" % (p, b.fn["ln"]))
+            else:
+                rule.ok("%s %s is a sign-bit operation (`%r`)" % (kind, name, bitop[-1]), file=p, line=bitop[-1].ln)
+
+
+def check_load_imm(rule, kind, root=None):
+    """`load_imm(c)` returns a register that holds c.  Either it emits the load on every path, or - when the
+    load is skipped on a cache hit - every other routine that writes the immediate register (or calls out,
+    which clobbers it) must invalidate that cache."""
+    p = path_of(kind)
+    builders = M.load_builders(p, root)
+    b = builders.get("load_imm")
+    if b is None:
+        rule.lost("%s load_imm" % kind)
+        return
+    fn = b.fn
+    w = [n for x in M.flat_ins(b) for n in M.writes_names(M.effect(x)) if n[0] == "v"]
+    if not w:
+        rule.lost("%s load_imm: no vector register written" % kind)
+        return
+    immreg = w[-1]
+    macs = [m for (m, _h, _i) in b.blocks]
+    guarded = [m for m in macs if (A.enclosing_conds(fn["body"], m) or [])]
+    early = list(A.find(fn["body"], "Return"))
+    if not guarded and not early:
+        rule.ok("%s load_imm emits the load of its argument into x%s on every path" % (kind, immreg[1]), file=p, line=fn["ln"])
+        return
+    fields = sorted({str(A.ftxt(a["left"])) for a in A.find(fn["body"], "Assign") if str(A.ftxt(a["left"])).startswith("self.")})
+    if len(fields) != 1:
+        rule.bad("%s|load_imm|conditional" % kind, "%s load_imm does not always load its argument, and no single cache field explains when it may skip the load" % kind, A.where(fn))
+        return
+    field = fields[0]
+    n_ok = 0
+    for name2, b2 in sorted(builders.items()):
+        if name2 == "load_imm":
+            continue
+        clob = [x for x in M.flat_ins(b2) if x.label is None and (immreg in M.writes_names(M.effect(x)) or (x.mnem or "").startswith("call"))]
+        if not clob:
+            continue
+        resets = [a for a in A.find(b2.fn["body"], "Assign") if str(A.ftxt(a["left"])) == field and A.ident(A.strip(a["right"])) == "None"]
+        if resets:
+            n_ok += 1
+        else:
+            rule.bad("%s|load_imm|stale|%s" % (kind, name2), "%s %s overwrites x%s (`%r`) but does not reset `%s`: a later load_imm of the cached constant skips the load and the clause reads a stale register" % (kind, name2, immreg[1], clob[0], field), "%s:%d" % (p, clob[0].ln))
+    rule.ok("%s load_imm skips the load on a cache hit; %d routines that clobber x%s reset `%s`" % (kind, n_ok, immreg[1], field), file=p, line=fn["ln"])
